@@ -51,8 +51,8 @@ type Goroutine struct {
 }
 
 type Obligation struct {
-	ID   string   // assertion id
-	Kind string   // "assert", "panic", "unwind", "leak", "hang", "reach"
+	ID   string    // assertion id
+	Kind string    // "assert", "panic", "unwind", "leak", "hang", "reach"
 	Cond *smt.Term // violated iff satisfiable
 	Site string
 }
@@ -79,31 +79,31 @@ type State struct {
 	Done   bool // main goroutine returned from the harness entry
 	Reason string
 
-	Counters  map[string]int
-	Inputs    []Input
-	Obs       []Observation
-	Oblig     []Obligation
-	Reached   map[string]bool
-	Unwind    int
-	Prune     bool
-	Steps     int
-	ExitCode  *smt.Term
-	Trace     []string
-	MapPerm   bool
+	Counters map[string]int
+	Inputs   []Input
+	Obs      []Observation
+	Oblig    []Obligation
+	Reached  map[string]bool
+	Unwind   int
+	Prune    bool
+	Steps    int
+	ExitCode *smt.Term
+	Trace    []string
+	MapPerm  bool
 	// command-line tool model (C17)
-	CLIFlags  map[string]Value  // flag name -> value set by the harness
-	CLIArgs   []string          // positional arguments
-	CLIFiles  map[string]string // file name -> content
-	CLIStdout []Value           // *StrV chunks printed to standard output
-	CLIExit   int               // -1: not exited; otherwise the os.Exit status
-	SharedWrites []string // package-level variables written after initialisation
-	FeasLen   int  // length of PC when the path condition was last found satisfiable
-	Forked    bool // some symbolic branch or split has been taken on this path
+	CLIFlags     map[string]Value  // flag name -> value set by the harness
+	CLIArgs      []string          // positional arguments
+	CLIFiles     map[string]string // file name -> content
+	CLIStdout    []Value           // *StrV chunks printed to standard output
+	CLIExit      int               // -1: not exited; otherwise the os.Exit status
+	SharedWrites []string          // package-level variables written after initialisation
+	FeasLen      int               // length of PC when the path condition was last found satisfiable
+	Forked       bool              // some symbolic branch or split has been taken on this path
 	// AbstractArith: symbolic*symbolic products and divisions by a symbolic
 	// divisor become uninterpreted functions (sound for proving equalities of
 	// two computations; a satisfiable answer must be confirmed by replay)
 	AbstractArith bool
-	StateFnCt map[string]int
+	StateFnCt     map[string]int
 }
 
 func (s *State) top() *Frame {
